@@ -483,6 +483,22 @@ pub fn explore(check: &'static dyn Check, seed: u64, tier: Tier, verif_dir: &str
         "wall_s": wall,
         "violations": reported,
     });
+    // a companion harness of the same check (C15: the shuttle thread harness) hands its summary in
+    let mut evidence = evidence;
+    if let Ok(path) = std::env::var("PVSIM_COMPANION_SUMMARY") {
+        match std::fs::read_to_string(&path).ok().and_then(|t| serde_json::from_str::<Value>(&t).ok()) {
+            Some(v) => {
+                if !v["violation"].is_null() {
+                    evidence["violations"] = json!(reported + 1);
+                }
+                evidence["coverage"]["threads"] = v;
+            }
+            None => {
+                eprintln!("harness error: companion summary {} is missing or malformed", path);
+                return RunReport { exit_code: 2 };
+            }
+        }
+    }
     let epath = format!("{}/evidence/{}.json", verif_dir, check.id());
     let _ = std::fs::create_dir_all(format!("{}/evidence", verif_dir));
     std::fs::write(&epath, serde_json::to_string_pretty(&evidence).unwrap()).unwrap();
